@@ -381,6 +381,46 @@ theorem ipfix_wellformed_published (ft : Val → Bytes) (cache : Cache) (addr : 
     | cons _ _ => rfl
   simp [this, ipfix_marshal_eq_render]
 
+/-- the NetFlow v5 instance (no template cache; `Flows != nil`; `JSONMarshal` never fails) -/
+def v5CodecA : Codec where
+  Cache := Unit
+  Msg := Bytes × V5.Msg
+  decode := fun _ addr bs =>
+    (match V5.decode bs with
+     | .ok m => some (addr, m)
+     | .error _ => none, ())
+  hasData := fun m => !m.2.flows.isEmpty
+  marshal := fun m => some (V5.marshal (ipBytes m.1) m.2)
+
+/-- **C05 end to end (NetFlow v5)**: unconditional (no float or string fields) -/
+theorem v5_published_end_to_end {cfg : Cfg} {spec : CountSpec} (hc : Canonical spec cfg.prog)
+    {mem0 : BufId → Bytes} {s : State v5CodecA}
+    (hr : Reach cfg (init v5CodecA () mem0) s) (id : Nat) (p : Bytes)
+    (hp : Event.published id p ∈ s.log) :
+    ∃ (d : Dgram) (m : V5.Msg),
+      Event.received d ∈ s.log ∧ d.id = id ∧ V5.decode d.bytes = .ok m ∧ m.flows ≠ [] ∧
+      p = render (v5Tree d.addr m) ∧ DVal p (v5Tree d.addr m) ∧ jsonValid p = true := by
+  obtain ⟨d, cache, h1, h2, m, hm, hd, hmar⟩ := C12.solo_spelled_out ((C12.published_is_solo hc hr).2.2 id p hp)
+  have hdec : (v5CodecA.decode cache d.addr d.bytes).1 =
+      (match V5.decode d.bytes with
+       | .ok m => some (d.addr, m)
+       | .error _ => none) := rfl
+  rw [hdec] at hm
+  cases hx : V5.decode d.bytes with
+  | error e => rw [hx] at hm; simp at hm
+  | ok m0 =>
+    rw [hx] at hm
+    have hm' := Option.some.inj hm
+    subst hm'
+    have hne : m0.flows ≠ [] := by
+      intro h0; simp [v5CodecA, h0] at hd
+    have hp' : p = V5.marshal (ipBytes d.addr) m0 := by
+      simp [v5CodecA] at hmar; exact hmar.symm
+    refine ⟨d, m0, h1, h2, hx, hne, ?_, ?_, ?_⟩
+    · rw [hp', v5_marshal_eq_render]
+    · rw [hp']; exact v5_marshal_valid _ _
+    · rw [hp']; exact v5_marshal_accepted _ _
+
 /-- non-vacuity of the chain: the example message of C03 (a template, an options template, two data sets with a
 variable-length field and set padding, three records) meets both hypotheses -/
 example : Wire.Ipfix.wfMsg C03.exAddr [] C03.exMsg = true ∧ (Wire.Ipfix.expected C03.exAddr [] C03.exMsg).1 ≠ [] := by
